@@ -167,7 +167,7 @@ def run_scenario(run: Run, scen: dict, rng: random.Random):
 
 
 def check(run: Run, tier: str, seed: int):
-    n = 60 if tier == "quick" else 500
+    n = 120 if tier == "quick" else 500
     steps = 12 if tier == "quick" else 60
     for i in range(n):
         cls, opts, semirings = CLASSES[i % len(CLASSES)]
